@@ -98,9 +98,11 @@ def teardownF (rx : Handle → RSt → Option Exc → RR) (c : Nat) (s : RSt) : 
   match (s.mgr c).inst with
   | none => s.ctxError
   | some o =>
+    let built := (s.mgr c).built
+    let s := s.setMgr c { s.mgr c with built := [] }
     let r1 := bringDown cfg s c o
-    let r2 := releaseAllWith rx (r1.1.mgr c).built.reverse r1.1 r1.2
-    (r2.1.setMgr c { r2.1.mgr c with inst := none, built := [] }, r2.2)
+    let r2 := releaseAllWith rx built.reverse r1.1 r1.2
+    (r2.1.setMgr c { r2.1.mgr c with inst := none }, r2.2)
 
 /-- reset_on_error: "forcefully de-initialize this instance if the context-manager … was exited
     with an exception.  The exception is then of course propagated further up." (pytest skips excepted) -/
